@@ -77,6 +77,7 @@ class Cfg(object):
         self.reuse_p = 0  # 0 = never; otherwise one bar in reuse_p has a later entry that is the very same container object as an earlier one (possibly with another value)
         self.duck_instruments = False  # MIDI instruments may be plain Instrument objects carrying an instrument_nr attribute
         self.equal_pitch_p = 0  # 0 = never; otherwise one chord in equal_pitch_p also holds an enharmonic respelling of one of its notes (as after item assignment)
+        self.same_bar_p = 0  # 0 = never; otherwise one track in same_bar_p ends with a Bar object that already stands earlier in it
         self.gm_names = True  # MIDI instruments may carry a General MIDI name (independent of their number)
         self.twin_p = 0  # 0 = never; otherwise one bar in twin_p is followed by its enharmonic twin (same pitches, other spelling)
         self.__dict__.update(kw)
@@ -193,6 +194,10 @@ def track_st(draw, cfg):
             bars.append(twin_bar(bars[-1], cfg.octaves))
             if draw(st.booleans()):
                 bars.append(twin_bar(bars[-1], cfg.octaves) if draw(st.booleans()) else dict(bars[-2]))
+    if cfg.same_bar_p and len(bars) >= 2 and draw(st.integers(0, cfg.same_bar_p - 1)) == 0:
+        # the very same Bar object once more at the end of the track (not next to its first occurrence when there are 3+ bars)
+        j = draw(st.integers(0, len(bars) - 2))
+        bars.append(dict(bars[j], same_as=j))
     kind = draw(st.sampled_from(cfg.instruments))
     instr = None
     if kind == "midi":
@@ -207,6 +212,8 @@ def track_st(draw, cfg):
             instr["duck"] = True
     elif kind == "generic":
         instr = {"kind": "generic", "name": draw(cfg.text)}
+    elif kind == "percussion":
+        instr = {"kind": "percussion", "name": "Midi Percussion"}
     name = draw(st.none() | cfg.text)
     return {"name": name, "instr": instr, "bars": bars}
 
@@ -270,6 +277,8 @@ def features(comp_or_track):
             f.add("zero-bar-track")
         if any(e["notes"] and [T.pitch(n[0], n[1]) for n in e["notes"]] != sorted(T.pitch(n[0], n[1]) for n in e["notes"]) for e in es):
             f.add("unsorted-chord")
+        if any("same_as" in b for b in t["bars"]):
+            f.add("one-bar-object-twice-in-a-track")
         if (t.get("instr") or {}).get("duck"):
             f.add("instrument-number-on-a-plain-instrument")
         if any(e.get("sub") for e in es) or (t.get("instr") or {}).get("sub"):
